@@ -24,8 +24,9 @@ Clauses
   cleaning:raises                    the cleaner raised on a content of the alphabet
 
 What the oracle deliberately does not demand (DESIGN.md section 4, C08, "not demanded"):
-  * tokens glued to a preceding/following word character (the alphabet has no such line: inner delimiters are
-    never empty and no delimiter is a word character);
+  * tokens glued to a preceding word character, and - except IPv4 - to a following one (IPv4 tokens are offered
+    the right-hand neighbours 'x' and '_': the statement has no delimiter condition for IPv4; the token that follows
+    such a neighbour is glued and therefore not demanded);
   * leading-zero notations, upper-case spellings of the host name, secrets with characters outside the
     documented class [a-zA-Z0-9_!@#$%^&*()+=/-] (not in the alphabet);
   * a `password` key that lies inside the secret-class run that follows an earlier `password` key (then it is part
@@ -51,9 +52,10 @@ from mc.result import Result
 ID = "C08"
 LEVEL = "exploration"
 RULE = ("every content of <= 2 lines, each line d0 t1 d1 t2 d2 [t3 d3] with t_i from the token alphabet T "
-        "(25 tokens: IPv4 incl. prefix-related/containing/loopback, host names of web01.corp.test, MACs incl. "
-        "all-zero/broadcast, keywords, plain/regex/POSIX pattern words, 5 password forms, a neutral word) and "
-        "d_i from the delimiter set D (inner delimiters never empty), x every configuration with <= 1 deviation "
+        "(27 tokens: IPv4 incl. prefix-related/containing/loopback, host names of web01.corp.test, MACs incl. "
+        "all-zero/broadcast, keywords, plain/regex/POSIX/backslash-class/backslash-anchor pattern words, 5 password "
+        "forms, a neutral word) and d_i from the delimiter set D (inner delimiters never empty; directly after an "
+        "IPv4 token additionally the word characters 'x' and '_'), x every configuration with <= 1 deviation "
         "from everything-on, x path; a case is non-trivial when it holds >= 2 sensitive tokens and the cleaner "
         "actually rewrote or dropped something (output != input)")
 ASSUMPTIONS = [
@@ -72,12 +74,14 @@ DOMAIN = "corp.test"
 KEYWORDS = ["SECRETKW", "kw-1"]
 # configured exclusion patterns and the oracle's own, independently written matcher for each
 PAT_PLAIN = ["PAT"]
-PAT_REGEX = ["PAT", "P[0-9]+T", "Q[[:digit:]]+R", "^192\\.168\\."]
+PAT_REGEX = ["PAT", "P[0-9]+T", "Q[[:digit:]]+R", "^192\\.168\\.", "K\\d\\dZ", "\\bBND\\b"]
 _ORACLE_PLAIN = [lambda l: "PAT" in l]
 _ORACLE_REGEX = [lambda l: "PAT" in l,
                  re.compile(r"P[0123456789]+T").search,
                  re.compile(r"Q[0123456789]+R").search,
-                 lambda l: l.startswith("192.168.")]
+                 lambda l: l.startswith("192.168."),
+                 re.compile(r"K[0123456789][0123456789]Z").search,          # backslash class, no other regex syntax
+                 re.compile(r"(?<![A-Za-z0-9_])BND(?![A-Za-z0-9_])").search]  # backslash anchors only
 
 # secrets from the documented class, one per token position so that a survivor can be attributed
 SECRETS = ["S3cr_t!1", "h@nter/2", "Pa$$+w=3", "q&W*e(r)4", "zX^9#-k5", "m%N+7=b6"]
@@ -90,7 +94,7 @@ TOKENS = (
     + [["mac", t] for t in ("aa:bb:cc:dd:ee:ff", "AA-BB-CC-DD-EE-FF")]
     + [["mac0", t] for t in ("00:00:00:00:00:00", "ff:ff:ff:ff:ff:ff")]
     + [["kw", t] for t in KEYWORDS]
-    + [["pat", t] for t in ("PAT", "P12T", "Q7R")]
+    + [["pat", t] for t in ("PAT", "P12T", "Q7R", "K47Z", "BND")]
     + [["pw", f] for f in PW_FORMS]
     + [["word", "zzz"]]
 )
@@ -99,6 +103,12 @@ NT = len(TOKENS)
 D_FULL = ["", " ", ":", "/", ",", "=", "(", ")", "[", "]", "\"", "-"]      # "" = line start / end
 D_RED = ["", " ", ":", "-", "/", "="]
 D_MIN = ["", " ", ":"]
+# Right-hand neighbours offered to IPv4 tokens only: the statement puts no delimiter condition on IPv4 addresses ("no
+# IPv4 address other than loopback appears in the output"; only the MAC clause says "delimited by non-word
+# characters") and the tree's pattern has no trailing boundary, so an address directly followed by a letter or '_'
+# must be obfuscated as well.  (A following digit would make it a different address; a PRECEDING word character
+# stays excluded, DESIGN.md.)  The token that follows such a neighbour is glued to a word character: not demanded.
+IPV4_RIGHT = ["x", "_"]
 
 _ALNUM = "abcdefghijklmnopqrstuvwxyzABCDEFGHIJKLMNOPQRSTUVWXYZ0123456789"
 WORD = frozenset(_ALNUM + "_")
@@ -132,6 +142,7 @@ BOUNDS = {
                                   "clean_file and provider write",
               "two_lines_default_cfg": "both lines single-token with (d0,d2) in {(boundary,boundary),(space,':')}; all three paths",
               "host_triples_default_cfg": "4 host tokens ^3, outer {boundary, space, ':'}, inner {space, ':', '-'}; clean_content",
+              "ipv4_right_neighbours": "directly after an IPv4 token every delimiter choice is extended by 'x' and '_'",
               "D_RED": D_RED},
     "thorough": {"tokens": NT, "configs": len(configs()), "max_tokens_per_line": 3, "max_lines": 2,
                  "pairs_default_cfg": "d0,d2 in full D (12 incl. line boundary), d1 in full D minus boundary (11); clean_content",
@@ -139,10 +150,11 @@ BOUNDS = {
                  "singles_all_cfgs": "d0,d2 in full D via all three paths",
                  "pairs_file_paths": "d0=d2=line boundary, d1 in full D minus boundary; clean_file and provider write; all cfgs",
                  "two_lines_default_cfg": "both lines single-token with d0,d2 in {boundary, space, ':'}; all three paths",
-                 "triples_default_cfg": "all 25^3 token triples, d0,d3 in D_RED, d1,d2 in D_RED minus boundary; clean_content",
+                 "triples_default_cfg": "all 27^3 token triples, d0,d3 in D_RED, d1,d2 in D_RED minus boundary; clean_content",
+                 "ipv4_right_neighbours": "directly after an IPv4 token every delimiter choice is extended by 'x' and '_'",
                  "D_RED": D_RED, "D_FULL": D_FULL},
 }
-CAP_S = {"quick": 120, "thorough": 1500}
+CAP_S = {"quick": 120, "thorough": 2400}
 
 
 # ---- building a case -------------------------------------------------------------------------
@@ -263,7 +275,7 @@ def run_path(path, cfg, in_lines, scratch):
 
 # ---- oracle ----------------------------------------------------------------------------------
 
-_IPV4_SHAPED = re.compile(r"(?<![\w.])[0-9]{1,3}\.[0-9]{1,3}\.[0-9]{1,3}\.[0-9]{1,3}(?![\w.])")
+_IPV4_SHAPED = re.compile(r"(?<![\w.])[0-9]{1,3}\.[0-9]{1,3}\.[0-9]{1,3}\.[0-9]{1,3}(?![0-9.])")
 _HOST_IN_DOMAIN = re.compile(r"[A-Za-z0-9_-]\.corp\.test")
 
 
@@ -454,8 +466,10 @@ def oracle(cfg, structs, in_lines, out_lines, cleaner):
             statuses.append(kind + "D")
         else:
             statuses.append(kind + ("K" if (o["needle"] or t) in raw else "M"))
-        if before in WORD or after in WORD:
-            continue                            # glued to a word character: not demanded
+        if before in WORD:
+            continue                            # glued to a preceding word character: not demanded
+        if after in WORD and not (kind == "ip" and not after.isdigit()):
+            continue                            # glued to a following one: not demanded, except IPv4 (see IPV4_RIGHT)
         feats = {"kind": kind}
         isolated = before in INERT and after in INERT
         alive = (li, ei) in survivors
@@ -543,6 +557,30 @@ def _two_line_outer(tier):
     return [("", ""), (" ", ":")] if tier == "quick" else list(itertools.product(D_MIN, D_MIN))
 
 
+def _two_line_singles(tier):
+    """the single-token lines two-line contents are built from: (token, d0, d2)"""
+    out = [(t, d0, d2) for (d0, d2) in _two_line_outer(tier) for t in range(NT)]
+    out += [(t, "", w) for t in range(NT) if _is_ip(t) for w in IPV4_RIGHT]
+    return out
+
+
+def _is_ip(ti):
+    return TOKENS[ti][0] == "ip"
+
+
+def _after(ti, base):
+    """delimiter choices for the position directly after token ti"""
+    return list(base) + (IPV4_RIGHT if _is_ip(ti) else [])
+
+
+def _outer_after(t_last, outer):
+    """(d0, d_last) choices: the given pairs, plus every d0 with the IPv4-only right-hand neighbours"""
+    if not _is_ip(t_last):
+        return outer
+    d0s = list(dict.fromkeys(d0 for d0, _ in outer))
+    return list(outer) + [(d0, w) for d0 in d0s for w in IPV4_RIGHT]
+
+
 def units(tier, seed):
     us = []
     ncfg = len(configs())
@@ -554,7 +592,7 @@ def units(tier, seed):
                 us.append({"part": "pairs", "cfg": ci, "t1": [t1]})
         us.append({"part": "singles", "cfg": ci})
         us.append({"part": "paths", "cfg": ci})
-    nl = len(_two_line_outer(tier)) * NT
+    nl = len(_two_line_singles(tier))
     step = 10 if tier == "quick" else 5
     for lo in range(0, nl, step):
         us.append({"part": "twolines", "lo": lo, "hi": min(nl, lo + step)})
@@ -597,8 +635,8 @@ def run_unit(unit, tier):
             outer, inner = _pair_delims(tier, unit["cfg"])
             for t1 in unit["t1"]:
                 for t2 in range(NT):
-                    for d0, d2 in outer:
-                        for d1 in inner:
+                    for d0, d2 in _outer_after(t2, outer):
+                        for d1 in _after(t1, inner):
                             go("content", cfg, [mk_line([t1, t2], [d0, d1, d2])])
             t1 = unit["t1"][0]
             res.samples.append({"path": "content", "cfg": cfg, "lines": [mk_line([t1, (t1 + 7) % NT], [" ", ":", ""])]})
@@ -606,10 +644,10 @@ def run_unit(unit, tier):
             cfg = cfgs[unit["cfg"]]
             for t1 in range(NT):
                 for d0 in D_FULL:
-                    for d2 in D_FULL:
+                    for d2 in _after(t1, D_FULL):
                         st = [mk_line([t1], [d0, d2])]
                         go("content", cfg, st)
-                        if tier == "thorough" or (d0 in D_RED and d2 in D_RED):
+                        if tier == "thorough" or (d0 in D_RED and (d2 in D_RED or d2 in IPV4_RIGHT)):
                             go("file", cfg, st)
                             go("write", cfg, st)
         elif part == "paths":
@@ -618,14 +656,15 @@ def run_unit(unit, tier):
             inner = D_FULL[1:] if tier == "thorough" else (D_RED[1:] if unit["cfg"] == 0 else [" ", ":"])
             for t1 in range(NT):
                 for t2 in range(NT):
-                    for d1 in inner:
-                        st = [mk_line([t1, t2], ["", d1, ""])]
-                        go("file", cfg, st)
-                        go("write", cfg, st)
+                    for d1 in _after(t1, inner):
+                        for d2 in _after(t2, [""]):
+                            st = [mk_line([t1, t2], ["", d1, d2])]
+                            go("file", cfg, st)
+                            go("write", cfg, st)
             res.samples.append({"path": "write", "cfg": cfg, "lines": [mk_line([0, 11], ["", ":", ""])]})
         elif part == "twolines":
             cfg = cfgs[0]
-            singles = [(t, d0, d2) for (d0, d2) in _two_line_outer(tier) for t in range(NT)]
+            singles = _two_line_singles(tier)
             for a in singles[unit["lo"]:unit["hi"]]:
                 for b in singles:
                     st = [mk_line([a[0]], [a[1], a[2]], 0), mk_line([b[0]], [b[1], b[2]], 1)]
@@ -637,9 +676,9 @@ def run_unit(unit, tier):
             t1, t2 = unit["t1"], unit["t2"]
             for t3 in range(NT):
                 for d0 in D_RED:
-                    for d1 in D_RED[1:]:
-                        for d2 in D_RED[1:]:
-                            for d3 in D_RED:
+                    for d1 in _after(t1, D_RED[1:]):
+                        for d2 in _after(t2, D_RED[1:]):
+                            for d3 in _after(t3, D_RED):
                                 go("content", cfg, [mk_line([t1, t2, t3], [d0, d1, d2, d3])])
         elif part == "hosttriples":
             cfg = cfgs[0]
@@ -665,7 +704,7 @@ def run_unit(unit, tier):
 
 TECHNIQUE = ("bounded exhaustive enumeration of token/delimiter lines x single-deviation configurations x write paths, "
              "executed against the real Cleaner; survivor oracle after masking the substitutes reported by mapping()")
-LEVEL_TEXT = ("Every line of <= 2 (quick) / <= 3 (thorough) sensitive tokens over 25 tokens and 12 delimiters, every content "
+LEVEL_TEXT = ("Every line of <= 2 (quick) / <= 3 (thorough) sensitive tokens over 27 tokens and 12 delimiters (+ 'x', '_' after IPv4), every content "
               "of <= 2 such lines, under every configuration one switch / one per-spec exemption / one pattern form / one "
               "host-name form away from everything-on, is cleaned by the real code through clean_content, clean_file and "
               "the provider write path, and the output is searched for survivors. No sampling; the claim is 'no survivor "
